@@ -104,6 +104,11 @@ def call_entry(ep, data, mode, ctx):
                 res = list(artifact.iter_artifactkit_payloads(io.BytesIO(data)))
             elif ep == "parse_raw_http":
                 res = c2.parse_raw_http(data)
+            elif ep.endswith(":none"):
+                # the documented "from the current file position" form of the helpers (start_offset=None)
+                fh0 = io.BytesIO(data)
+                name = ep[: -len(":none")]
+                res = list(artifact.iter_artifactkit_payloads(fh0, start_offset=None)) if name == "artifactkit" else getattr(pe, name)(fh0, start_offset=None)
             elif ep.endswith(":file"):
                 # the same helpers on a regular file (positions beyond what the file system supports, allocation of the
                 # requested read size): a 2 GiB address-space limit makes an attempt to allocate a claimed 4 GiB visible
@@ -147,6 +152,8 @@ def call_entry(ep, data, mode, ctx):
     ok = True
     if ep.endswith(":file"):
         ep = ep[: -len(":file")]
+    if ep.endswith(":none"):
+        ep = ep[: -len(":none")]
     if ep in ("from_bytes", "from_file", "from_path"):
         ok = isinstance(res, beacon.BeaconConfig) and isinstance(res.config_block, bytes) and isinstance(res.settings_tuple, tuple)
     elif ep == "xordecode":
@@ -491,6 +498,12 @@ def run_shard(shard, ctx):
                 struct.pack_into("<H", d, lf + 6, nsec)
                 for ep in ("find_compile_stamps", "find_stage_prepend_append", "from_bytes"):
                     check_case({"data": bytes(d), "seed_kind": "crafted-pe", "fault": f"NumberOfSections={nsec}", "calls": [(ep, "default")]}, ctx)
+        # every helper in its "from the current position" form, on stages with and without prepended bytes
+        for arch in ("x86", "x64"):
+            img, info = P.build_pe(rng, arch=arch, nsec=2)
+            for pre in (b"", b"\x90" * 7, P.filler(rng, 300)):
+                for ep in ("find_mz_offset", "find_architecture", "find_compile_stamps", "find_magic_mz", "find_magic_pe", "find_stage_prepend_append", "artifactkit"):
+                    check_case({"data": pre + img + b"tail", "seed_kind": "crafted-pe", "fault": f"none:start_offset=None,prepend={len(pre)}", "calls": [(ep + ":none", "default")]}, ctx)
         # claimed sizes that only a regular file takes at face value
         for arch in ("x86", "x64"):
             img, info = P.build_pe(rng, arch=arch, nsec=2)
